@@ -1,7 +1,7 @@
 SPECIFICATION GenSpec
 CONSTANTS
   NTop = 2
-  KindsCb = {"noop", "raise", "failcoro", "addcb", "addto", "rm", "resolve"}
+  KindsCb = {"noop", "raise", "failcoro", "addcb", "addto"}
   KindsTo = {"noop", "addcb", "rm"}
   KindsFut = {"noop"}
   Delays = {0, 1}
